@@ -19,7 +19,7 @@ func NewWriteInPlaceHandler(inputFile string) writeInPlaceHandler {
 	return &writeInPlaceHandlerImpl{inputFile, nil}
 }
 
-func (w *writeInPlaceHandlerImpl) CreateTempFile() (*os.File, error) {
+func (w *writeInPlaceHandlerImpl) CreateTempFile() (tempFile *os.File, err error) {
 	if err := verifPoint("create_temp"); err != nil {
 		return nil, err
 	}
@@ -28,6 +28,13 @@ func (w *writeInPlaceHandlerImpl) CreateTempFile() (*os.File, error) {
 	if err != nil {
 		return nil, err
 	}
+	defer func() {
+		if err != nil {
+			// do not leave the temp file behind
+			safelyCloseFile(file)
+			tryRemoveTempFile(file.Name())
+		}
+	}()
 	if err := verifPoint("stat_target"); err != nil {
 		return nil, err
 	}
